@@ -176,7 +176,8 @@ for _i in (0,):
                        ("acct-so-far", "setv(cer_acct_apps) == set_union(setv(some(message.acct_application_id)), "
                                        "vs_fold(done, 'acct_application_id'))")],
            hints=["vs_snoc(done, cur, 'auth_application_id')", "vs_snoc(done, cur, 'acct_application_id')",
-                  "vs_nil('auth_application_id')", "vs_nil('acct_application_id')"])
+                  "vs_nil('auth_application_id')", "vs_nil('acct_application_id')"],
+           modifies=["set:cer_auth_apps", "set:cer_acct_apps"])
 
 # ---- receive_cer -------------------------------------------------------------------------------------------------
 R.model("Node", fields={"vendor_ids": "Set[int]"})
@@ -247,7 +248,8 @@ R.loop("Node.receive_cer", 1,
                    ("acct-so-far", "setv(cer_acct_apps) == set_union(setv(some(message.acct_application_id)), "
                                    "vs_fold(done, 'acct_application_id'))")],
        hints=["vs_snoc(done, cur, 'auth_application_id')", "vs_snoc(done, cur, 'acct_application_id')",
-              "vs_nil('auth_application_id')", "vs_nil('acct_application_id')"])
+              "vs_nil('auth_application_id')", "vs_nil('acct_application_id')"],
+       modifies=["set:cer_auth_apps", "set:cer_acct_apps"])
 
 
 @R.specfn("subscript_opaque")
